@@ -29,9 +29,10 @@ func init() {
 		Rule: "enumerated scenario table: server-credential scenarios (trusted, untrusted root, expired / not-yet-valid leaf, expired or missing intermediate, wrong name, SAN/IP names, Config.Time shifted both ways, flipped certificate signature, substituted key, flipped ServerKeyExchange/CertificateVerify signature, wire flips of ServerKeyExchange / Certificate, InsecureSkipVerify) " +
 			"x TLS1.0-1.3 x {RSA, ECDHE_RSA, ECDHE_ECDSA, DHE_RSA, TLS1.3} x key kinds; client-auth table: 5 ClientAuth modes x client credentials (none, trusted, untrusted, expired, wrong EKU, flipped certificate signature, substituted key, flipped CertificateVerify, wire flip) x versions x client key kinds; " +
 			"peers zcrypto<->zcrypto, lying/honest Go server against the zcrypto client, lying/honest Go client against the zcrypto server. non-trivial = a row with an asserted expectation whose run reached a decision (verifying side returned); distinct by row description",
-		MinNontrivial: 1200,
-		Shards:        16,
-		Env:           goDebug,
+		MinNontrivial:         1200,
+		MinNontrivialThorough: 4000,
+		Shards:                16,
+		Env:                   goDebug,
 		Assumptions: []string{
 			"expected outcomes derive from the property statement and the ClientAuthType / InsecureSkipVerify / Config.Time documentation; the oracle looks only at the verifying side's error and HandshakeComplete",
 			"possession proof is asserted for RequireAnyClientCert and RequireAndVerifyClientCert (the statement's 'server requiring client certificates'); for RequestClientCert / VerifyClientCertIfGiven it is recorded only",
@@ -180,14 +181,35 @@ func expectClientAuth(mode, cred string, vers uint16) string {
 	return "skip"
 }
 
+// suiteAlternates: suites of the same key-exchange family and version range; later repetitions of the
+// table (thorough tier) rotate through them.
+var suiteAlternates = map[uint16][]uint16{
+	0x002f: {0x002f, 0x0035, 0x000a, 0x0005},
+	0xc013: {0xc013, 0xc014, 0xc012, 0xc011},
+	0xc009: {0xc009, 0xc00a, 0xc007},
+	0x0033: {0x0033, 0x0039, 0x0016},
+	0xc02b: {0xc02b, 0xc02c, 0xcca9, 0xc023},
+	0xc02c: {0xc02c, 0xc02b, 0xcca9, 0xc009},
+	0xc02f: {0xc02f, 0xc030, 0xcca8, 0xc027},
+	0x009c: {0x009c, 0x009d, 0x003c},
+	0x009e: {0x009e, 0x009f, 0x0067, 0x006b, 0xccaa},
+	0x1301: {0x1301, 0x1302, 0x1303},
+	0x1302: {0x1302, 0x1303, 0x1301},
+	0x1303: {0x1303, 0x1301, 0x1302},
+}
+
 func c27Table(c *core.Ctx) []c27Row {
 	var rows []c27Row
+	rep := 0
 	add := func(r c27Row) {
+		if alts := suiteAlternates[r.Suite]; len(alts) > 0 {
+			r.Suite = alts[rep%len(alts)]
+		}
 		r.ID = fmt.Sprintf("r%05d", len(rows))
 		rows = append(rows, r)
 	}
 	reps := c.Pick(1, 24)
-	for rep := 0; rep < reps; rep++ {
+	for rep = 0; rep < reps; rep++ {
 		for _, cell := range c27Cells() {
 			for _, sc := range serverScenarios {
 				if expectServerScenario(sc, cell, "zz") == "skip" {
